@@ -6,6 +6,8 @@ from .. import gen, schemagen, schemaout
 from .c17 import scan_tl
 
 LEGACY = """
+reqError#b527877d {X:Type} error_code:int error:string = ReqResult X;
+reqResultHeader#8cc84ce1 {X:Type} flags:# result:X = ReqResult X;
 _ {X:Type} result:X = ReqResult X;
 engine.query {X:Type} query:!X = engine.Query;
 engine.queryShortened query:%(VectorTotal int) = engine.Query;
